@@ -424,9 +424,9 @@ def run_impl(case):
                 top.get_context(gn[c]).remove((t(s), t(p), t(o)))
             dirty[w] = True
         elif kind == "commit":
-            (st if nest else top).commit()
+            (st if (nest and w == 1) else top).commit()
         elif kind == "rollback":
-            (st if nest else top).rollback()
+            (st if (nest and w == 1) else top).rollback()
         after, raw_n = _quads(mem, gn_rev, term_rev)
         if raw_n != len(after):
             viol.append(f"dup: store yields duplicate quads after op {k}")
@@ -504,22 +504,21 @@ def _w(x):
 
 
 def _op_lines(op):
-    """the model-side lines of one harness op (every compound op is the sequence of its adds / removes)"""
+    """the model-side line of one harness op; compound operations are expanded into the wrapper's calls by the MODEL
+    (`GOp.expand` in XModel.lean), not here"""
     k, w = op[0], op[1]
     if k in ("add", "remove"):
         return [f"{k} {w} " + " ".join(_w(x) for x in op[2:6])]
     if k in ("addn", "parse"):
-        return [f"add {w} " + " ".join(_w(x) for x in q) for q in op[2]]
+        return [f"addn {w} " + " ".join(" ".join(_w(x) for x in q) for q in op[2])]
     if k == "addf":
-        return ([f"add {w} " + " ".join(_w(x) for x in list(e) + [op[2][3]]) for e in op[3]]
-                + [f"add {w} " + " ".join(_w(x) for x in op[2])])
+        return [f"addf {w} " + " ".join(_w(x) for x in op[2]) + "".join(" " + " ".join(_w(x) for x in e) for e in op[3])]
     if k == "set":
-        s_, p_, o_, c_ = op[2:]
-        return [f"remove {w} {s_} {p_} * {c_}", f"add {w} {s_} {p_} {o_} {c_}"]
+        return [f"set {w} " + " ".join(_w(x) for x in op[2:6])]
     if k == "isub":
-        return [f"remove {w} " + " ".join(_w(x) for x in q) for q in op[2]]
+        return [f"isub {w} " + " ".join(" ".join(_w(x) for x in q) for q in op[2])]
     if k == "rmctx":
-        return [f"remove {w} * * * {op[2]}"]
+        return [f"rmctx {w} {op[2]}"]
     if k == "bind":
         return [f"bind {w} {op[2]} {op[3]} {op[4]}"]
     if k == "pass":
